@@ -468,6 +468,9 @@ class RetryExecutor(CanCustomizeBind, Executor):
             # (cancel the future before forgetting the job, so that a
             # concurrent cancel() finds either the job or a cancelled future)
             found_job.future._me_delegate_cancelled()
+            # (the cancelled delegate references this executor through its
+            # done callback; the finished future must not keep it alive)
+            found_job.future._clear_delegate()
             self._pop_job(found_job)
             return
 
